@@ -120,6 +120,31 @@ pub fn plans_for(prop: &str, thorough: bool) -> Vec<Plan> {
                 u_cap: 400,
             });
             plans.push(Plan {
+                name: "F-STR + F-NUM x quote_style x line_endings",
+                cases: {
+                    let mut v = if thorough { gen::f_str(4, 5, 2) } else { gen::f_str(3, 4, 1) };
+                    v.extend(gen::f_num());
+                    v
+                },
+                cfgs: Box::new(|_c: &Case| {
+                    let mut v = vec![];
+                    let syns: Vec<crate::cfg::Syn> =
+                        if cfg!(feature = "allsyn") { vec![crate::cfg::Syn::Lua51, crate::cfg::Syn::Luau, crate::cfg::Syn::All] } else { vec![crate::cfg::Syn::Lua51, crate::cfg::Syn::All] };
+                    for syn in syns {
+                        for qs in [0u8, 1, 3] {
+                            for le in 0..2u8 {
+                                v.push(Cfg { qs, le, ..Cfg::default().with_syn(syn) });
+                            }
+                        }
+                    }
+                    v
+                }),
+                widths: Widths::Wide,
+                ranges: Ranges::None,
+                oracles: o,
+                u_cap: 400,
+            });
+            plans.push(Plan {
                 name: "F-SEQ x all widths",
                 cases: gen::f_seq(if thorough { 3 } else { 2 }, thorough),
                 cfgs: cross(false, |b| vec![b, Cfg { cs: 3, ..b }]),
@@ -191,6 +216,51 @@ pub fn plans_for(prop: &str, thorough: bool) -> Vec<Plan> {
                 widths: Widths::All,
                 ranges: Ranges::None,
                 oracles: O_TREE,
+                u_cap: 400,
+            });
+        }
+        "C04" => {
+            let (ml, cl, pl) = if thorough { (4, 6, 3) } else { (3, 4, 2) };
+            plans.push(Plan {
+                name: "F-STR (all bodies up to the length bound) x quote_style x line_endings x syntax",
+                cases: gen::f_str(ml, cl, pl),
+                cfgs: Box::new(move |_c: &Case| {
+                    let mut v = vec![];
+                    let syns: Vec<crate::cfg::Syn> = if cfg!(feature = "allsyn") {
+                        vec![crate::cfg::Syn::Lua51, crate::cfg::Syn::Lua54, crate::cfg::Syn::Luau, crate::cfg::Syn::All]
+                    } else {
+                        vec![crate::cfg::Syn::Lua51, crate::cfg::Syn::All]
+                    };
+                    for syn in syns {
+                        for qs in 0..4u8 {
+                            for le in 0..2u8 {
+                                v.push(Cfg { qs, le, ..Cfg::default().with_syn(syn) });
+                            }
+                        }
+                    }
+                    v
+                }),
+                widths: Widths::Wide,
+                ranges: Ranges::None,
+                oracles: O_LIT,
+                u_cap: 400,
+            });
+            plans.push(Plan {
+                name: "F-NUM (numeric spellings of every dialect) x syntax x widths",
+                cases: gen::f_num(),
+                cfgs: Box::new(|_c: &Case| crate::cfg::Syn::ALL.iter().map(|s| Cfg::default().with_syn(*s)).collect()),
+                widths: Widths::Classes,
+                ranges: Ranges::None,
+                oracles: O_LIT,
+                u_cap: 400,
+            });
+            plans.push(Plan {
+                name: "F-STMT literals under every quote style",
+                cases: stmt.clone(),
+                cfgs: cross(thorough, |b| (0..4u8).flat_map(|qs| (0..2u8).map(move |le| Cfg { qs, le, ..b })).collect()),
+                widths: Widths::Classes,
+                ranges: Ranges::None,
+                oracles: O_LIT,
                 u_cap: 400,
             });
         }
